@@ -33,7 +33,10 @@ func (c *Tag) WriteHTMLTo(w io.Writer) (int64, error) {
 	for _, name := range names {
 		value := c.attributes[name]
 		if value != "" {
-			attributes += fmt.Sprintf(`%s="%s" `, name, value)
+			// The value often comes from the GEDCOM file (like a surname in
+			// a link). It must not be able to end the attribute or the tag.
+			attributes += fmt.Sprintf(`%s="%s" `, name,
+				escapeAttribute(value))
 		}
 	}
 
